@@ -37,7 +37,7 @@ from harness import enc_misc as E
 from harness import gen_misc as G
 from harness import misc_common as M
 from harness import monitor as Mon
-from harness.common import Ctx
+from harness.common import Ctx, guarded
 
 LEVEL = "proof"
 RULE = ("(A) cases = Python values for freeze_value (all values of nesting depth ≤2 over 2 atoms and ≤2 members per "
@@ -93,6 +93,7 @@ def depth_has_nested_mutable(v) -> bool:
     return any(not is_frozen_py(x) for x in inner)
 
 
+@guarded
 def check_freeze(ctx: Ctx, v, origin: str):
     stt = E.StrTable()
     enc = E.enc_py(v, stt)
@@ -235,6 +236,7 @@ def same_params(a, b, strict_kinds: bool) -> bool:
     return True
 
 
+@guarded
 def check_object_model(ctx: Ctx, cls: str, kw, origin: str, m0: bool, m1: bool, drop: Optional[str] = None,
                        extra: bool = False):
     """cls(**kw) under allow_mutable=m0, then copy() / pickle under m1: real vs model, and the
@@ -335,6 +337,7 @@ def mutate_args(rng, kw):
         del t[next(iter(t.keys()))]
 
 
+@guarded
 def probe_default(ctx: Ctx, cls: str, kw, rng, origin: str):
     args = G._dc(kw)
     with M.options(True, False):
@@ -397,6 +400,7 @@ class Member:
                              if k in ("final_states",)})
 
 
+@guarded
 def history(ctx: Ctx, rng, mutable: bool, steps: int, classes: List[str], origin: str):
     log = Mon.Log()
     pool: List[Member] = []
